@@ -557,6 +557,20 @@ func findChecks(c *Case, ms *yang.Modules, obs map[string]map[string]*Observed) 
 			continue
 		}
 		nodes := obs[tm]
+		// a node that can be walked to (and hence looked up) where the specification has none: its last step names no child
+		specPaths := map[string]bool{}
+		for _, f := range c.Flat[tm] {
+			specPaths[strings.Join(f.P, "/")] = true
+		}
+		for _, key := range sortedObs(nodes) {
+			if !specPaths[key] {
+				o := nodes[key]
+				abs := "/" + c.Prog.Mods[tm].Pfx + ":" + strings.Join(o.P, "/"+c.Prog.Mods[tm].Pfx+":")
+				if g := yang.ToEntry(ms.Modules[tm]).Find(abs); g != nil {
+					return fmt.Sprintf("absent-step-found\x00Find(%q) from the root of %s returns %s; the schema has no node there (the last step names no child of what the path reaches)", abs, tm, desc(g))
+				}
+			}
+		}
 		for _, f := range c.Flat[tm] {
 			p := strings.Join(f.P, "/")
 			var found *yang.Entry
